@@ -475,10 +475,8 @@ package godi
 //@   at before return#9 : assert[C15] bad_result_object_stores_nothing: ncalls("scope.setInstance") == 0 && ncalls("scope.storeOutput") == 0 && ncalls("scope.setAliasedInstance") == 0
 // C10: what an invocation has produced stays owned also when the invocation is rejected for a nil output, and an object is handed to the
 // disposal tracking once per invocation on every path (stored outputs, outputs of removed registrations, unstored result objects)
-//@   at before return#14 : assert[C10] rejected_outputs_stay_owned: forall j int :: 0 <= j && j < len(info.Returns) && !info.Returns[j].IsError && ext("(reflect.Value).Interface", "any", results[info.Returns[j].Index]) != nil ==>
-//@        (exists c int :: 0 <= c && c < ncalls("scope.trackOnly") && callarg("scope.trackOnly", c, 0) == s && callarg("scope.trackOnly", c, 2) == ext("(reflect.Value).Interface", "any", results[info.Returns[j].Index]))
-//@   at before call s.trackOnly#1 : assert[C10] an_object_is_tracked_once_per_invocation_removed_field: forall c int :: 0 <= c && c < ncalls("scope.storeOutput") ==> callarg("scope.storeOutput", c, 3) != value
-//@   at before call s.trackOnly#2 : assert[C10] an_object_is_tracked_once_per_invocation_removed_return: forall c int :: 0 <= c && c < ncalls("scope.storeOutput") ==> callarg("scope.storeOutput", c, 3) != value
+//@   at before return#14 : assert[C10] rejected_outputs_stay_owned: ncalls("scope.trackResults") == 1 && callarg("scope.trackResults", 0, 0) == s && callarg("scope.trackResults", 0, 1) == descriptor.Lifetime
+//@        && callarg("scope.trackResults", 0, 2) == info && callarg("scope.trackResults", 0, 3) == results && ncalls("scope.setInstance") == 0 && ncalls("scope.storeOutput") == 0
 //@   ghost ownSeen bool
 //@   ghost ownVal any
 //@   at before call s.storeOutput#1 : ghost ownVal := ite(regDescriptor == descriptor, value, ownVal)
@@ -495,12 +493,13 @@ package godi
 //@        (exists c int :: 0 <= c && c < ncalls("scope.storeOutput") && callarg("scope.storeOutput", c, 3) == ext("(reflect.Value).Interface", "any", results[info.Returns[j].Index]))
 //@   at before return#16 : assert[C10] unstored_outputs_are_still_owned: forall j int :: 0 <= j && j < len(info.Returns) && !info.Returns[j].IsError ==>
 //@        (exists c int :: 0 <= c && c < ncalls("scope.storeOutput") && callarg("scope.storeOutput", c, 3) == ext("(reflect.Value).Interface", "any", results[info.Returns[j].Index]))
-//@        || (exists c int :: 0 <= c && c < ncalls("scope.trackOnly") && callarg("scope.trackOnly", c, 0) == s && callarg("scope.trackOnly", c, 2) == ext("(reflect.Value).Interface", "any", results[info.Returns[j].Index]))
+//@        || (exists c int :: 0 <= c && c < ncalls("scope.trackOutput") && callarg("scope.trackOutput", c, 0) == s && callarg("scope.trackOutput", c, 2) == ext("(reflect.Value).Interface", "any", results[info.Returns[j].Index]))
 //@   at before return#17 : assert[C15] nil_result_stores_nothing: ncalls("scope.setInstance") == 0 && ncalls("scope.storeOutput") == 0 && ncalls("scope.setAliasedInstance") == 0
 //@   at before return#18 : assert[C01,C02,C03,C10] single_output_stored_once: ncalls("scope.setInstance") == 0 && ncalls("scope.storeOutput") == 0 && ncalls("scope.setAliasedInstance") == 1 && callarg("scope.setAliasedInstance", 0, 0) == s
 //@        && callarg("scope.setAliasedInstance", 0, 1) == descriptor && callarg("scope.setAliasedInstance", 0, 2) == instance && instance != nil
 //@   loop 1
 //@     invariant nothing_stored_is_forgotten by(nothing_stored_is_forgotten, nothing_is_forgotten): forall c int :: 0 <= c && c < ncalls("scope.storeOutput") ==> (exists i int :: 0 <= i && i < len(stored) && (stored[i] == callarg("scope.storeOutput", c, 3) || pure("sameObject", stored[i], callarg("scope.storeOutput", c, 3))))
+//@     invariant nothing_tracked_is_forgotten by(nothing_tracked_is_forgotten, nothing_is_forgotten): forall c int :: 0 <= c && c < ncalls("scope.trackOutput") ==> (exists i int :: 0 <= i && i < len(stored) && (stored[i] == callarg("scope.trackOutput", c, 2) || pure("sameObject", stored[i], callarg("scope.trackOutput", c, 2))))
 //@     invariant stored_are_instances: forall c int :: 0 <= c && c < ncalls("scope.storeOutput") ==> callarg("scope.storeOutput", c, 3) != nil
 //@     invariant stored_so_far: ncalls("scope.storeOutput") <= idx && (forall c int :: 0 <= c && c < ncalls("scope.storeOutput") ==> (exists i int :: 0 <= i && i < idx && callarg("scope.storeOutput", c, 3) == registrations[i].Value))
 //@     invariant only_registered_outputs_stored: forall c int :: 0 <= c && c < ncalls("scope.storeOutput") ==> !outputSkipped(s.rootProvider, descriptor, callarg("scope.storeOutput", c, 1, "*Descriptor"))
@@ -508,10 +507,11 @@ package godi
 //@     invariant every_output_is_cached_under_its_registration_identity: forall c int :: 0 <= c && c < ncalls("scope.storeOutput") ==> idOf(callarg("scope.storeOutput", c, 1, "*Descriptor"), callarg("scope.storeOutput", c, 2, "instanceKey"))
 //@     invariant returned_value_is_what_was_stored_for_this_registration: len(descriptor.outputs) > 0 && ownSeen ==> ownVal == primaryService
 //@   loop 2
-//@     invariant nothing_stored_before_all_outputs_are_checked: ncalls("scope.setInstance") == 0 && ncalls("scope.storeOutput") == 0 && ncalls("scope.setAliasedInstance") == 0 && ncalls("scope.trackOnly") == 0
+//@     invariant nothing_stored_before_all_outputs_are_checked: ncalls("scope.setInstance") == 0 && ncalls("scope.storeOutput") == 0 && ncalls("scope.setAliasedInstance") == 0 && ncalls("scope.trackOutput") == 0 && ncalls("scope.trackResults") == 0
 //@     invariant outputs_checked_so_far: forall j int :: 0 <= j && j < idx && !info.Returns[j].IsError ==> ext("(reflect.Value).Interface", "any", results[info.Returns[j].Index]) != nil
 //@   loop 3
 //@     invariant nothing_stored_is_forgotten by(nothing_stored_is_forgotten, nothing_is_forgotten): forall c int :: 0 <= c && c < ncalls("scope.storeOutput") ==> (exists i int :: 0 <= i && i < len(stored) && (stored[i] == callarg("scope.storeOutput", c, 3) || pure("sameObject", stored[i], callarg("scope.storeOutput", c, 3))))
+//@     invariant nothing_tracked_is_forgotten by(nothing_tracked_is_forgotten, nothing_is_forgotten): forall c int :: 0 <= c && c < ncalls("scope.trackOutput") ==> (exists i int :: 0 <= i && i < len(stored) && (stored[i] == callarg("scope.trackOutput", c, 2) || pure("sameObject", stored[i], callarg("scope.trackOutput", c, 2))))
 //@     invariant stored_are_instances: forall c int :: 0 <= c && c < ncalls("scope.storeOutput") ==> callarg("scope.storeOutput", c, 3) != nil
 //@     invariant own_scope: forall c int :: 0 <= c && c < ncalls("scope.storeOutput") ==> callarg("scope.storeOutput", c, 0) == s
 //@     invariant every_output_is_cached_under_its_registration_identity: forall c int :: 0 <= c && c < ncalls("scope.storeOutput") ==> idOf(callarg("scope.storeOutput", c, 1, "*Descriptor"), callarg("scope.storeOutput", c, 2, "instanceKey"))
@@ -520,7 +520,7 @@ package godi
 //@     invariant only_registered_outputs_stored: forall c int :: 0 <= c && c < ncalls("scope.storeOutput") ==> !outputSkipped(s.rootProvider, descriptor, callarg("scope.storeOutput", c, 1, "*Descriptor"))
 //@     invariant unstored_outputs_are_still_owned: forall j int :: 0 <= j && j < idx && !info.Returns[j].IsError ==>
 //@        (exists c int :: 0 <= c && c < ncalls("scope.storeOutput") && callarg("scope.storeOutput", c, 3) == ext("(reflect.Value).Interface", "any", results[info.Returns[j].Index]))
-//@        || (exists c int :: 0 <= c && c < ncalls("scope.trackOnly") && callarg("scope.trackOnly", c, 0) == s && callarg("scope.trackOnly", c, 2) == ext("(reflect.Value).Interface", "any", results[info.Returns[j].Index]))
+//@        || (exists c int :: 0 <= c && c < ncalls("scope.trackOutput") && callarg("scope.trackOutput", c, 0) == s && callarg("scope.trackOutput", c, 2) == ext("(reflect.Value).Interface", "any", results[info.Returns[j].Index]))
 //
 //@ func sameObject
 //@   pure
@@ -558,12 +558,40 @@ package godi
 //@   nopanic
 //@   safety[C15,C10]
 //@   requires recv: s != nil && s.rootProvider != nil
-//@   ensures[C10] every_value_stays_owned: ncalls("scope.trackOnly") == len(registrations) && (forall i int :: 0 <= i && i < len(registrations) ==>
-//@        callarg("scope.trackOnly", i, 0) == s && callarg("scope.trackOnly", i, 1) == lifetime && callarg("scope.trackOnly", i, 2) == registrations[i].Value)
-//@   at before call s.trackOnly#1 : assert[C10] an_object_is_tracked_once_per_invocation_unstored: forall c int :: 0 <= c && c < ncalls("scope.trackOnly") ==> callarg("scope.trackOnly", c, 2) != reg.Value
+//@   ensures[C10] every_value_stays_owned: ncalls("scope.trackOutput") == len(registrations) && (forall i int :: 0 <= i && i < len(registrations) ==>
+//@        callarg("scope.trackOutput", i, 0) == s && callarg("scope.trackOutput", i, 1) == lifetime && callarg("scope.trackOutput", i, 2) == registrations[i].Value)
 //@   loop 1
-//@     invariant tracked_so_far: ncalls("scope.trackOnly") == idx && (forall i int :: 0 <= i && i < idx ==>
-//@        callarg("scope.trackOnly", i, 0) == s && callarg("scope.trackOnly", i, 1) == lifetime && callarg("scope.trackOnly", i, 2) == registrations[i].Value)
+//@     invariant handed_over_so_far: ncalls("scope.trackOutput") == idx && (forall i int :: 0 <= i && i < idx ==>
+//@        callarg("scope.trackOutput", i, 0) == s && callarg("scope.trackOutput", i, 1) == lifetime && callarg("scope.trackOutput", i, 2) == registrations[i].Value)
+//@     invariant nothing_tracked_is_forgotten by(nothing_tracked_is_forgotten, nothing_is_forgotten): forall c int :: 0 <= c && c < ncalls("scope.trackOutput") ==> (exists i int :: 0 <= i && i < len(tracked) && (tracked[i] == callarg("scope.trackOutput", c, 2) || pure("sameObject", tracked[i], callarg("scope.trackOutput", c, 2))))
+//
+//@ func scope.trackResults
+//@   mode conc
+//@   interferes
+//@   nopanic
+//@   safety[C15,C10]
+//@   unchecked index#1: results[ret.Index] relies on reflect.Value.Call returning NumOut values and on the analysed return indices
+//@   requires recv: s != nil && s.rootProvider != nil && info != nil
+//@   ensures[C10] every_produced_value_stays_owned: forall j int :: 0 <= j && j < len(info.Returns) && !info.Returns[j].IsError && ext("(reflect.Value).Interface", "any", results[info.Returns[j].Index]) != nil ==>
+//@        (exists c int :: 0 <= c && c < ncalls("scope.trackOutput") && callarg("scope.trackOutput", c, 0) == s && callarg("scope.trackOutput", c, 1) == lifetime && callarg("scope.trackOutput", c, 2) == ext("(reflect.Value).Interface", "any", results[info.Returns[j].Index]))
+//@   loop 1
+//@     invariant handed_over_so_far: forall j int :: 0 <= j && j < idx && !info.Returns[j].IsError && ext("(reflect.Value).Interface", "any", results[info.Returns[j].Index]) != nil ==>
+//@        (exists c int :: 0 <= c && c < ncalls("scope.trackOutput") && callarg("scope.trackOutput", c, 0) == s && callarg("scope.trackOutput", c, 1) == lifetime && callarg("scope.trackOutput", c, 2) == ext("(reflect.Value).Interface", "any", results[info.Returns[j].Index]))
+//
+// the tracking half of storeOutput: an output that is not stored under any identity is handed to trackOnly, once per object and invocation
+//@ func scope.trackOutput
+//@   mode conc
+//@   interferes
+//@   nopanic
+//@   safety[C15,C10]
+//@   requires recv: s != nil && s.rootProvider != nil
+//@   ensures[C10] tracked_at_most_once: ncalls("scope.trackOnly") <= 1 && (ncalls("scope.trackOnly") == 1 ==> callarg("scope.trackOnly", 0, 0) == s && callarg("scope.trackOnly", 0, 1) == lifetime && callarg("scope.trackOnly", 0, 2) == value)
+//@   ensures[C10] tracked_exactly_when_not_handed_over_before: (ncalls("scope.trackOnly") == 1) <==> (forall i int :: 0 <= i && i < len(tracked) ==> !pure("sameObject", tracked[i], value))
+//@   ensures[C10] nothing_is_forgotten: ((exists i int :: 0 <= i && i < len(tracked) && pure("sameObject", tracked[i], value)) && result == tracked)
+//@        || (len(result) == len(tracked) + 1 && result[len(tracked)] == value && (forall i int :: 0 <= i && i < len(tracked) ==> result[i] == tracked[i]))
+//@   at before call s.trackOnly#1 : assert[C10] an_object_is_tracked_once_per_invocation: forall i int :: 0 <= i && i < len(tracked) ==> !pure("sameObject", tracked[i], value)
+//@   loop 1
+//@     invariant not_handed_over_so_far: ncalls("scope.trackOnly") == 0 && (forall i int :: 0 <= i && i < idx ==> !pure("sameObject", tracked[i], value))
 //
 // ---------------------------------------------------------------------------------------------
 // Entry points: a disposed scope / provider refuses work (C13), arguments are validated (C15).
